@@ -374,6 +374,34 @@ func c03Huge(c *choice.Ctx, rep *report.R) {
 		}
 		obs = fmt.Sprintf("%d octets tc=%v", len(raw[0]), rs[0].Has(refdns.BitTC))
 	}
+	// whatever happened to that response (on UDP it may have been impossible to send): the listener keeps answering ordinary queries
+	{
+		n = 0
+		tail = 0
+		cl2 := cl // the same listener instance and, where the transport allows it, the same connection
+		if seam.name == "quic" || strings.HasPrefix(seam.name, "http") || strings.HasPrefix(seam.name, "fasthttp") {
+			cl2 = seam.open(v)
+		}
+		before := 0
+		if cl2 == cl {
+			before = len(rs)
+		}
+		cl2.send(refdns.Query(0x0904, refdns.N("after", "example", "test"), 1, 1))
+		wait()
+		hsleep(6*time.Second + 50*time.Millisecond)
+		wait()
+		rs2, _ := cl2.responses()
+		answered := false
+		for _, m := range rs2 {
+			answered = answered || (m != nil && m.ID == 0x0904)
+		}
+		if len(rs2) != before+1 || !answered {
+			fail("no-response-after-big-response", fmt.Sprintf("an ordinary query sent after the %d octet response (sent or not) got %d new responses", size, len(rs2)-before))
+		}
+		if cl2 != cl {
+			cl2.close()
+		}
+	}
 	cl.close()
 	v.Close()
 	wait()
@@ -560,6 +588,102 @@ func c03ManyQueries(rep *report.R, udp bool, total int) {
 	rep.Eval(desc)
 }
 
+// c03Pair: two (or three) queries arriving in ONE read on a stream listener, answered by the upstream in either order: each gets
+// exactly one response, with its own id and question.
+func c03Pair(c *choice.Ctx, rep *report.R) {
+	own := env.InstallOwn(0xA5, vRace)
+	defer env.UninstallOwn()
+	kind := []string{"tcp", "gnet"}[c.Choose(2, "listener")]
+	k := 2 + c.Choose(2, "queries-in-one-read")
+	order := c.Choose(2, "reply-order")
+	desc := fmt.Sprintf("listener=%s %d queries in one segment, upstream replies in order %d", kind, k, order)
+	fail := func(sig, msg string) {
+		rep.Violate("C03:"+kind+":one-read:"+sig, msg+"\n  "+desc, map[string]any{"Choices": c.Choices(), "Pair": true})
+	}
+	v, err := vNewRouter(c03Config("forward"), "u1")
+	if err != nil {
+		fail("router-start", err.Error())
+		return
+	}
+	defer v.Close()
+	u := v.ups["u1"]
+	var seg []byte
+	var qs []*refdns.Msg
+	for i := 0; i < k; i++ {
+		q := refdns.Query(uint16(0x0330+i), refdns.N(fmt.Sprintf("pair%d", i), "example", "test"), 1, 1)
+		qs = append(qs, q)
+		seg = append(seg, refdns.Frame(q.Encode(false))...)
+	}
+	var written func() []byte
+	if kind == "tcp" {
+		sc := v.tcpClient(v.newTCPServer(0, 100*time.Second), vClientV4, vLocalV4)
+		sc.Send(seg)
+		written = func() []byte { return sc.impl.Written() }
+	} else {
+		g := v.gnetClient(v.newGnetServer(0, 100*time.Second), vClientV4, vLocalV4)
+		g.Send(seg)
+		written = g.Written
+	}
+	wait()
+	pend := u.Pending()
+	if len(pend) != k {
+		fail("forwarding", fmt.Sprintf("%d of %d queries reached the upstream", len(pend), k))
+	}
+	if order == 1 {
+		for i, j := 0, len(pend)-1; i < j; i, j = i+1, j-1 {
+			pend[i], pend[j] = pend[j], pend[i]
+		}
+	}
+	for _, p := range pend {
+		if p.Msg != nil {
+			p.Reply(env.Answer(p.Msg, 1, 60).Encode(false))
+			wait()
+		}
+	}
+	hsleep(6*time.Second + 50*time.Millisecond)
+	wait()
+	fs, rest := env.SplitFrames(written())
+	if rest != 0 {
+		fail("stream-not-framed", fmt.Sprintf("%d trailing octets", rest))
+	}
+	got := map[uint16]int{}
+	for _, f := range fs {
+		m, err := refdns.Decode(f)
+		if err != nil {
+			fail("undecodable-response", fmt.Sprintf("%x", f))
+			continue
+		}
+		got[m.ID]++
+		matched := false
+		for _, q := range qs {
+			if q.ID == m.ID {
+				matched = true
+				for _, b := range c03CheckResponse(q, m, 0) {
+					fail("bad-response:"+strings.SplitN(b, " ", 2)[0], b)
+				}
+				if kk, _, ok := env.AnswerKey(m); m.RCode() == 0 && (!ok || kk != env.KeyIP(q.Q[0].Name, 1, 1)) {
+					fail("foreign-answer", fmt.Sprintf("the response with id %#x does not answer %s", m.ID, q.Q[0].Name))
+				}
+			}
+		}
+		if !matched {
+			fail("response-with-unknown-id", fmt.Sprintf("id %#x", m.ID))
+		}
+	}
+	for _, q := range qs {
+		if got[q.ID] != 1 {
+			fail("response-count", fmt.Sprintf("query id %#x got %d responses", q.ID, got[q.ID]))
+		}
+	}
+	v.Close()
+	wait()
+	for _, x := range own.Audit() {
+		fail("ownership", x)
+	}
+	rep.Eval(desc)
+	rep.State("pair|" + desc)
+}
+
 // client is the seam-independent view of one client transport.
 type c03Client interface {
 	send(m *refdns.Msg)
@@ -715,17 +839,17 @@ func TestVerifC03(t *testing.T) {
 	}
 	rep.Rule = fmt.Sprintf("E3: real router (run()) with scripted upstream in a synctest bubble; full product listener seam %v x %d queries (all QR x opcode{0,1,2,15} x RD x QDCOUNT{0,1,2}; flag/class/type/case/OPT/extra-record variants) x rule outcome %v x upstream outcome %v (only when forwarded); "+
 		"observed at t=0, 6s, 6.05s, 20s on the exact virtual clock; oracle: exactly one response, by 6s+50ms, id/opcode/RD copied, QR=RA=1, <=1 question equal to the first question, rcode per reference decision table; ownership audit; "+
-		"plus, on every seam, a query advertising 65535 octets whose upstream answer is composed (listener encoding measured by two probes) so that the complete response is exactly 65500..65535 octets, one by one: exactly one well-formed response within 6.05 s; "+
+		"plus, on every seam, a query advertising 65535 octets whose upstream answer is composed (listener encoding measured by two probes) so that the complete response is exactly 65500..65535 octets, one by one: exactly one well-formed response within 6.05 s, and an ordinary query afterwards is answered too; 2..3 queries arriving in one read on the tcp and gnet handlers, answered in either order: one matching response each; "+
 		"plus, on the tcp and quic connection handlers with idle_timeout 2 s, one connection kept in use for four idle timeouts with a query every {0.5, 1.5, 1.9} s: every query answered, connection never closed under the client; "+
 		"plus 65576 sequential queries through the real pipelined transport (more than one connection's id space): each gets its response",
 		seams, len(queries), c03Rules, c03Ups)
-	huge, longLived, many := false, false, false
+	huge, longLived, many, pair := false, false, false, false
 	if rp := report.ReplayFile(); rp != nil {
-		var x struct{ Huge, LongLived, Many bool }
+		var x struct{ Huge, LongLived, Many, Pair bool }
 		rp.Decode(&x)
-		huge, longLived, many = x.Huge, x.LongLived, x.Many
+		huge, longLived, many, pair = x.Huge, x.LongLived, x.Many, x.Pair
 	}
-	if !huge && !longLived && !many {
+	if !huge && !longLived && !many && !pair {
 		st := runExplore(t, rep, -1, func(c *choice.Ctx) { c03Scenario(c, rep, queries) })
 		rep.Count("executions", st.Executions)
 	}
@@ -742,6 +866,10 @@ func TestVerifC03(t *testing.T) {
 				c03ManyQueries(rep, true, 65536+40)
 			}
 		})
+	}
+	if pair || report.ReplayFile() == nil {
+		st := runExplore(t, rep, -1, func(c *choice.Ctx) { c03Pair(c, rep) })
+		rep.Count("executions_one_read", st.Executions)
 	}
 	if longLived || report.ReplayFile() == nil {
 		st := runExplore(t, rep, -1, func(c *choice.Ctx) { c03LongLived(c, rep) })
